@@ -111,12 +111,11 @@ theorem good_inp {inp G r its} (h : Good inp G r its) : r.br.src.inp = inp := by
   · exact h.1.inp_eq
 
 
-/-- one step of the history is accepted and the simulation goes on – or a refusing policy made
-the reader give up -/
+/-- one step of the history is accepted and the simulation goes on – or the environment is not
+ideal (a refusing policy, a failing read or seek) -/
 def StepOk (inp : List UInt8) (G : Prop) (all : List FqItem) (a : AState) (op : Op)
     (x : MSt × ObsH) : Prop :=
-  (∃ a', acceptA all a op x.2 = some a' ∧ Sim inp G all x.1 a') ∨
-  (¬ G ∧ x.2 = .error .bufferLimit)
+  (∃ a', acceptA all a op x.2 = some a' ∧ Sim inp G all x.1 a') ∨ ¬ G
 
 theorem fuelOf_ge (r : Reader) : 2 * r.br.src.inp.length + 4 ≤ fuelOf r := by
   simp only [fuelOf, opFuel]; omega
@@ -125,13 +124,14 @@ theorem fuelOf_ge (r : Reader) : 2 * r.br.src.inp.length + 4 ≤ fuelOf r := by
 theorem step_next (inp : List UInt8) (G : Prop) (all : List FqItem) (m : MSt) (a : AState)
     (hs : Sim inp G all m a) :
     (∃ a', acceptNext all a (stepNext m).2 = some a' ∧ Sim inp G all (stepNext m).1 a') ∨
-    (¬ G ∧ (stepNext m).2 = .error .bufferLimit) := by
+    ¬ G := by
   have hfuel := fuelOf_ge m.r
   have hF := next_found inp G (fuelOf m.r) m.r _ hs.good (by omega)
   simp only [stepNext]
   rcases hx : next (fuelOf m.r) m.r with ⟨r', res⟩
   rw [hx] at hF
-  rcases hF with ⟨hr, x, its', hi, hsh⟩ | ⟨hr, hi, hfin⟩ | ⟨e, b, l, hr, hi, hfin⟩ | ⟨hr, hG, hfin⟩
+  rcases hF with (⟨hr, x, its', hi, hsh⟩ | ⟨hr, hi, hfin⟩ | ⟨e, b, l, hr, hi, hfin⟩ |
+    ⟨e, hr, henv, hG, hfin⟩) | ⟨hG, -⟩
   · simp only at hr hi hsh
     subst hr
     obtain ⟨hk, hd⟩ := drop_eq_cons hi
@@ -152,9 +152,8 @@ theorem step_next (inp : List UInt8) (G : Prop) (all : List FqItem) (m : MSt) (a
     refine Or.inl ⟨{ a with k := all.length, last := .none }, ?_, ?_, hs.sets, trivial⟩
     · simp only [acceptNext, hk, obsNext, if_true]
     · simp only [List.drop_length]; exact hfin.good
-  · simp only at hr hfin
-    subst hr
-    exact Or.inr ⟨hG, rfl⟩
+  · exact Or.inr hG
+  · exact Or.inr hG
 
 /-- dumping a set -/
 theorem step_dump (inp : List UInt8) (G : Prop) (all : List FqItem) (m : MSt) (a : AState)
@@ -228,13 +227,13 @@ theorem sets_after (m : MSt) (a : AState) (r' : Reader) (a0 : AState) (j : Nat) 
 theorem step_set (inp : List UInt8) (G : Prop) (all : List FqItem) (m : MSt) (a : AState)
     (hs : Sim inp G all m a) (j : Nat) (n : Option Nat) (hn : ∀ n', n = some n' → 1 ≤ n') :
     (∃ a', acceptSet all a j n (stepSet m j n).2 = some a' ∧ Sim inp G all (stepSet m j n).1 a') ∨
-    (¬ G ∧ (stepSet m j n).2 = .error .bufferLimit) := by
+    ¬ G := by
   have hR := readSet_spec inp G (fuelOf m.r) m.r (m.getSet j) n _ hs.good (fuelOf_ge m.r) hn
   simp only [stepSet]
   rcases hx : readRecordSetExact (fuelOf m.r) m.r (m.getSet j) n with ⟨r', rs', res⟩
   rw [hx] at hR
   rcases hR with ⟨hr, ys, its', hi, hv, hne, hl, hc⟩ | ⟨hr, hi, hfin, hrs⟩ |
-    ⟨ys, e, b, l, hr, hi, hp, hfin, hc⟩ | ⟨hr, hG, hp, hfin⟩
+    ⟨ys, e, b, l, hr, hi, hp, hfin, hc⟩ | ⟨e, hr, henv, hG, hp, hfin⟩ | ⟨hG, -⟩
   · -- a batch
     simp only at hr hv hl hc
     subst hr
@@ -302,7 +301,7 @@ theorem step_set (inp : List UInt8) (G : Prop) (all : List FqItem) (m : MSt) (a 
           rw [this.1, this.2]
       · have hg := hl.1
         simp only [Good, hst] at hg
-        rw [hg.2.2] at hx0
+        rw [hg.2] at hx0
         cases hx0
   · -- the end
     simp only at hr hi hfin hrs
@@ -353,10 +352,8 @@ theorem step_set (inp : List UInt8) (G : Prop) (all : List FqItem) (m : MSt) (a 
     · unfold LastOk
       rw [(AState.putSet_k _ _ _).2]
       trivial
-  · simp only at hr
-    subst hr
-    exact Or.inr ⟨hG, rfl⟩
-
+  · exact Or.inr hG
+  · exact Or.inr hG
 
 /-! ## histories without seeks -/
 
@@ -408,7 +405,7 @@ theorem run_accepted_noseek (inp : List UInt8) (all : List FqItem) :
   | cons op ops ih =>
     intro m a hs hops
     have h1 := hops op (List.mem_cons_self)
-    rcases step_ok_noseek inp True all m a hs op h1.1 h1.2 with ⟨a', hacc, hs'⟩ | ⟨hG, -⟩
+    rcases step_ok_noseek inp True all m a hs op h1.1 h1.2 with ⟨a', hacc, hs'⟩ | hG
     · simp only [runM, acceptsA, hacc]
       exact ih _ a' hs' (fun o ho => hops o (List.mem_cons_of_mem _ ho))
     · exact absurd trivial hG
